@@ -90,26 +90,25 @@ def httpRead (d : Bytes) (offset length : Nat) : ClientRead :=
 
 abbrev Cells := List (Option UInt8)
 
-/-- `BucketWriter.write` conflict check + write on `cells[off ..]` (structural on the data, `cells` already
-dropped to `off`): `none` = `ConflictingWriteError` (an already written byte differs). -/
-def writeAt : Cells → Bytes → Option Cells
-  | cs, [] => some cs
-  | [], _ :: _ => none                                   -- beyond the allocated size (guarded by the caller)
-  | none :: cs, b :: bs => (writeAt cs bs).map (some b :: ·)
-  | some c :: cs, b :: bs => if c = b then (writeAt cs bs).map (some b :: ·) else none
+/-- `BucketWriter.write`, the conflict check: some already written byte in the range differs from the new
+data (`cells` already dropped to the offset; bytes beyond the allocation are not looked at here). -/
+def conflictsAt : Cells → Bytes → Bool
+  | _, [] => false
+  | [], _ :: _ => false
+  | none :: cs, _ :: bs => conflictsAt cs bs
+  | some c :: cs, b :: bs => c != b || conflictsAt cs bs
 
 /-- result of one `BucketWriter.write(offset, data)` -/
 inductive WriteRes
   | ok (cells : Cells)
-  | conflict
-  | tooLarge                                             -- `DataTooLargeError`
+  | conflict                                             -- `ConflictingWriteError`
+  | tooLarge                                             -- `DataTooLargeError` (raised by `write_share_data`, after the conflict check)
 deriving Repr, DecidableEq
 
 def bucketWrite (cells : Cells) (off : Nat) (data : Bytes) : WriteRes :=
-  if off + data.length > cells.length then .tooLarge
-  else match writeAt (cells.drop off) data with
-    | none => .conflict
-    | some tl => .ok (cells.take off ++ tl)
+  if conflictsAt (cells.drop off) data then .conflict
+  else if off + data.length > cells.length then .tooLarge
+  else .ok (cells.take off ++ data.map some ++ cells.drop (off + data.length))
 
 /-- `_is_finished`: the written ranges add up to the allocated size. -/
 def finished (cells : Cells) : Bool := cells.all Option.isSome
@@ -128,6 +127,37 @@ def requiredFrom (pos : Nat) (run : Option Nat) : Cells → List (Nat × Nat)
     | none => requiredFrom (pos + 1) none cs
 
 def required (cells : Cells) : List (Nat × Nat) := requiredFrom 0 none cells
+
+/-- one upload seen from the marshalling layer: open with its cells, or closed (moved to its final place) -/
+inductive UpSt
+  | opened (cells : Cells)
+  | closed (data : Bytes)
+deriving Repr, DecidableEq
+
+/-- what a `write_share_chunk` reports -/
+inductive UpRes
+  | progress (finished : Bool) (required : List (Nat × Nat))   -- 200 / 201 with the `required` list
+  | conflict                                                     -- 409
+  | tooLarge                                                     -- 500
+  | gone                                                         -- 404: no such upload in progress (any more)
+deriving Repr, DecidableEq
+
+/-- `HTTPServer.write_share_data` for a chunk whose body matches its Content-Range: write, and close the
+bucket as soon as `write` reports completion. -/
+def upStep : UpSt → Nat × Bytes → UpSt × UpRes
+  | .closed d, _ => (.closed d, .gone)
+  | .opened cells, (off, data) =>
+    match bucketWrite cells off data with
+    | .conflict => (.opened cells, .conflict)
+    | .tooLarge => (.opened cells, .tooLarge)
+    | .ok c' => if finished c' then (.closed (cellsData c'), .progress true []) else (.opened c', .progress false (required c'))
+
+def runUpload (s : UpSt) : List (Nat × Bytes) → UpSt × List UpRes
+  | [] => (s, [])
+  | c :: rest =>
+    let r := upStep s c
+    let rr := runUpload r.1 rest
+    (rr.1, r.2 :: rr.2)
 
 /-- the parsed `Content-Range` of a PATCH: `none` = `parse_content_range_header` returned `None`;
 `span = none` = `bytes */len` (start and stop are `None`). -/
@@ -280,12 +310,15 @@ def decBool : Val → Option Bool
   | .bool b => some b
   | _ => none
 
+def decReadsEntry (p : Val × Val) : Option (Nat × List Bytes) := do
+  pure (← decNat p.1, ← ((← decList p.2).mapM decBytes))
+
 /-- client: `ReadTestWriteResult(success=result["success"], reads=result["data"])` -/
 def decRtwResult (v : Val) : Option RtwResult := do
   let m ← decMap v
   let s ← (Val.lookup "success" m).bind decBool
   let d ← (Val.lookup "data" m).bind decMap
-  let reads ← d.mapM (fun p => do pure (← decNat p.1, ← ((← decList p.2).mapM decBytes)))
+  let reads ← d.mapM decReadsEntry
   pure ⟨s, reads⟩
 
 /-! ### the storage-side meaning of read-test-write on one slot (share number → data) -/
